@@ -7,6 +7,51 @@ from c11 import PLUGS, adversarial_deltas, deltas
 CLSS = ('Implies', 'App', 'Exists', 'Mu', 'EVar', 'SVar', 'Symbol')
 
 
+def jsubst(t, sg):
+    """plain metavariable substitution on a substitution-free term"""
+    k = t['t']
+    if k == 'mv':
+        return sg.get(t['i'], t)
+    if k in ('imp', 'app'):
+        return dict(t, l=jsubst(t['l'], sg), r=jsubst(t['r'], sg))
+    if k in ('ex', 'mu'):
+        return dict(t, p=jsubst(t['p'], sg))
+    return t
+
+
+def jexpand(t):
+    """expansion of notation nodes for substitution-free definitions (re-checked by TLC: clause bad-expansion)"""
+    k = t['t']
+    if k == 'inst':
+        return jsubst(jexpand(t['p']), {kk: jexpand(vv) for kk, vv in t['d']})
+    if k in ('imp', 'app'):
+        return dict(t, l=jexpand(t['l']), r=jexpand(t['r']))
+    if k in ('ex', 'mu'):
+        return dict(t, p=jexpand(t['p']))
+    return t
+
+
+def alias_chains(rng):
+    """several notation levels directly above a binder / an implication / an application; alias notations whose
+    definition is a bare metavariable (ident := #0), projections, aliases of aliases"""
+    N, M, I = funcs.NOT_DEFS, pi2v.MV, pi2v.NINST
+    a, b = pi2v.EV(0), pi2v.SYM(1)
+    ident = lambda x: I(M(0), [(0, x)])
+    proj = lambda x, y: I(M(1), [(0, x), (1, y)])
+    ex0 = lambda x: I(pi2v.EX(0, M(0)), [(0, x)])
+    lfp = lambda x: I(pi2v.MU(1, pi2v.IMP(M(0), pi2v.SV(1))), [(0, x)])
+    base = [I(N['bot'], []), I(I(N['bot'], []), []), ident(N['bot']), ident(ident(N['bot'])), proj(a, N['bot']),
+            ex0(a), I(ex0(M(0)), [(0, pi2v.APP(b, a))]), ident(ex0(a)), ident(ident(ex0(pi2v.EV(1)))), lfp(a), ident(lfp(b)), I(lfp(M(0)), [(0, b)]),
+            ident(pi2v.IMP(a, b)), ident(ident(pi2v.IMP(M(0), M(1)))), ident(pi2v.APP(b, a)), proj(b, pi2v.APP(b, a)), ident(N['neg'](a)), ident(N['and'](a, b)),
+            ident(a), ident(pi2v.SV(1)), ident(b), N['neg'](ident(a)), pi2v.IMP(ident(a), I(N['bot'], [])), ident(M(0)), proj(M(1), M(0))]
+    out = []
+    for t in base:
+        out.append({'p': t, 'e': jexpand(t), 'pe': True})
+        out.append({'p': pi2v.IMP(t, rng.choice(base)), 'e': jexpand(pi2v.IMP(t, t)), 'pe': True})
+        out[-1]['e'] = jexpand(out[-1]['p'])
+    return out
+
+
 def ops_for(p, rng, nd):
     g = rng.choice(PLUGS + [funcs.NOT_DEFS['neg'](pi2v.EV(0)), funcs.NOT_DEFS['bot']])
     ops = [{'fn': 'evar_is_free', 'x': rng.choice((0, 1))}, {'fn': 'metavars'},
@@ -26,7 +71,7 @@ def run(v, tier):
     u = pi2v.universes()
     v.assumptions += ['hash/equality consistency of notation nodes is not part of the property and is not checked',
                       'expansions are computed by TLC (MLCore!Expand), not by the toolkit']
-    pairs = u['NU1'] + (rng.sample(u['NU2S'], 250) if quick else u['NU2S'])
+    pairs = u['NU1'] + (rng.sample(u['NU2S'], 250) if quick else u['NU2S']) + alias_chains(rng)
     gn = funcs.Gen(pi2v.SEED + 12, ids=(0, 1), notation=True)
     rnd = [gn.term(3) for _ in range(150 if quick else 3000)]
     # ---- equality: (p == q) iff expansions equal, both orders
@@ -94,7 +139,8 @@ def run(v, tier):
     for k, (x, op) in enumerate(meta):
         a, b = res[2 * k], res[2 * k + 1]
         cases.append({'fam': 'op', 'p': x['p'], 'op': op, 'outp': a['out'][:5], 'oute': b['out'][:5],
-                      'rp': a['res'] or {'kind': 'none'}, 're': b['res'] or {'kind': 'none'}})
+                      'rp': a['res'] or {'kind': 'none'}, 're': b['res'] or {'kind': 'none'},
+                      'haspe': bool(x.get('pe')) and op['fn'] != 'match_single', 'pe': x['e'] if x.get('pe') else pi2v.EV(0)})
     v.sample({'fam': 'op', 'p': cases[-1]['p'], 'op': cases[-1]['op'], 'rp': cases[-1]['rp']})
     # matching between two applications of the same definition must be matching of their expansions (judged by TLC's
     # matcher on the expansions: family "match" of Trace_PyOps)
@@ -105,6 +151,8 @@ def run(v, tier):
         c['p'], c['op'] = c['eqs'], {'fn': c['api'], 'seed': c['seed']}
     cases += mcases
     res, _ = funcs.run_blocks(v, 'C12', 'Trace_PyOps', 'c12-trace', cases, '', bs=300, needs_sem=True)
+    if any(f[2] == 'bad-expansion' for f in res.fails):
+        raise pi2v.MachineryError('checks/c12.py jexpand disagrees with MLCore!Expand')
     for f in res.fails:
         c = cases[f[1] - 1]
         key = f"{f[2]}:{tkey(c['p'])}:{tkey(c.get('q') or c.get('op'))}"
